@@ -37,6 +37,13 @@ var (
 
 var ctx = context.Background()
 
+var cleanup = func() {}
+
+func exit(code int) {
+	cleanup()
+	os.Exit(code)
+}
+
 // ---------------------------------------------------------------- terms
 
 // term is one element of the universe: its wire token, the real value, and whether it is inside the
@@ -86,13 +93,15 @@ type universe struct {
 	graphs             []*term // graph names (nilTerm = default graph)
 	byWire             map[string]*term
 	bnWire             map[rdf.BlankNode]string
+	iriWire            map[rdf.IRI]string
+	litWire            map[rdf.Literal]string
 	subjects, objects  []*term
 	preds              []*term
 	allWF              []*term
 }
 
 func newUniverse() *universe {
-	u := &universe{byWire: map[string]*term{}, bnWire: map[rdf.BlankNode]string{}}
+	u := &universe{byWire: map[string]*term{}, bnWire: map[rdf.BlankNode]string{}, iriWire: map[rdf.IRI]string{}, litWire: map[rdf.Literal]string{}}
 	for _, s := range []string{"http://e/a", "http://e/b", "http://e/p", "http://e/q"} {
 		u.iris = append(u.iris, iriTerm(s))
 	}
@@ -149,7 +158,12 @@ func (u *universe) wireOf(t rdf.Term) string {
 	case nil:
 		return "-"
 	case rdf.IRI:
-		return "I" + hx(string(v))
+		if w, ok := u.iriWire[v]; ok {
+			return w
+		}
+		w := "I" + hx(string(v))
+		u.iriWire[v] = w
+		return w
 	case rdf.BlankNode:
 		if v.Identifier == nil {
 			return "Bn"
@@ -159,7 +173,12 @@ func (u *universe) wireOf(t rdf.Term) string {
 		}
 		return "B?"
 	case rdf.Literal:
-		return litTerm(string(v.Datatype), v.LexicalForm, v.Tag).wire
+		if w, ok := u.litWire[v]; ok {
+			return w
+		}
+		w := litTerm(string(v.Datatype), v.LexicalForm, v.Tag).wire
+		u.litWire[v] = w
+		return w
 	}
 	return fmt.Sprintf("?%T", t)
 }
@@ -667,9 +686,18 @@ func tf(b bool) string {
 // runGo executes a history on a fresh real dataset; one canonical output per op.
 // useCached decides per view op whether an earlier handle of the same graph is reused.
 func (u *universe) runGo(ops []op, useCached func(i int) bool) []string {
+	outs, _ := u.runGo2(ops, useCached)
+	return outs
+}
+
+// runGo2 additionally returns, for every subject-iterator op, the answer without residue: the
+// distinct subjects of the graph's triple iterator that satisfy the matchers (computed on the
+// implementation itself, so it is defined for malformed histories too).
+func (u *universe) runGo2(ops []op, useCached func(i int) bool) (outs, alts []string) {
 	d := inmemory.NewDataset()
 	handles := map[string]triples.Graph{}
-	outs := make([]string, len(ops))
+	outs = make([]string, len(ops))
+	alts = make([]string, len(ops))
 	view := func(i int, g *term) triples.Graph {
 		if h, ok := handles[g.wire]; ok && useCached(i) {
 			return h
@@ -766,10 +794,32 @@ func (u *universe) runGo(ops []op, useCached func(i int) bool) []string {
 				}
 				outs[i] = errOr(it.Err(), showList(l))
 				it.Close()
+				ti, err := view(i, o.q.g).NewTripleIterator(ctx)
+				if err == nil {
+					seen := map[string]bool{}
+					var al []string
+				NEXT:
+					for ti.Next() {
+						sub := ti.Triple().Subject
+						w := u.wireOf(sub)
+						if seen[w] {
+							continue
+						}
+						for _, m := range ms {
+							if !m.MatchTerm(sub) {
+								continue NEXT
+							}
+						}
+						seen[w] = true
+						al = append(al, w)
+					}
+					alts[i] = showList(al)
+					ti.Close()
+				}
 			}
 		}()
 	}
-	return outs
+	return outs, alts
 }
 
 // runRef executes the history on a plain map-based set. ok[i] reports whether op i has a reference
@@ -1150,6 +1200,26 @@ type item struct {
 	line string
 	goR  string
 	kind string
+	alt  string // per-op residue-free answers of subject iterators, "|"-joined ("" = none)
+}
+
+// sameUpToResidue: the model's output differs from the implementation's only at subject-iterator
+// ops where the implementation gave the residue-free answer (an upstream repair of the residue
+// finding must not raise an alarm: on inputs inside a known class T3 accepts either behaviour).
+func sameUpToResidue(goR, model, alt string) bool {
+	if alt == "" {
+		return false
+	}
+	g, m, a := strings.Split(goR, "|"), strings.Split(model, "|"), strings.Split(alt, "|")
+	if len(g) != len(m) || len(g) != len(a) {
+		return false
+	}
+	for i := range g {
+		if g[i] != m[i] && (a[i] == "" || g[i] != a[i]) {
+			return false
+		}
+	}
+	return true
 }
 
 func main() {
@@ -1161,9 +1231,21 @@ func main() {
 	fs, err := vh.LoadFindings(*findings)
 	if err != nil {
 		fmt.Fprintln(os.Stderr, "findings:", err)
-		os.Exit(2)
+		exit(2)
 	}
 	known := vh.KnownKeys(fs, "C19")
+	// The driver binary is shared with the checks of other properties and is relinked by their
+	// builds; run from a private copy so that a concurrent relink cannot pull it away mid-run.
+	if !*nomodel {
+		if b, err := os.ReadFile(*driver); err == nil {
+			priv := fmt.Sprintf("%s/c19-driver-%d", os.TempDir(), os.Getpid())
+			if err := os.WriteFile(priv, b, 0o755); err == nil {
+				*driver = priv
+				cleanup = func() { os.Remove(priv) }
+				defer cleanup()
+			}
+		}
+	}
 	var items []item
 	modelOff := false // exhaustive depth-4 part: oracle only
 
@@ -1180,11 +1262,15 @@ func main() {
 		res, err := vh.Driver{Path: *driver}.RunParallel(lines)
 		if err != nil {
 			fmt.Fprintln(os.Stderr, err)
-			os.Exit(2)
+			exit(2)
 		}
 		for i, it := range items {
 			rep.Compared++
 			if res[i] == it.goR {
+				continue
+			}
+			if sameUpToResidue(it.goR, res[i], it.alt) {
+				rep.Count("residue:implementation-without-residue-tolerated")
 				continue
 			}
 			// shrink the disagreement against the model when it is a history
@@ -1214,7 +1300,7 @@ func main() {
 			cached[i] = cacheRng.Bool()
 		}
 		useCached := func(i int) bool { return cached[i] }
-		outs := u.runGo(ops, useCached)
+		outs, alts := u.runGo2(ops, useCached)
 		line := lineOf(ops)
 		nontrivial := false
 		present := map[string]bool{}
@@ -1266,7 +1352,14 @@ func main() {
 			rep.Add(vh.Case{Kind: "violation", Op: lineOf(small), Go: strings.Join(u.runGo(small, func(int) bool { return false }), "|"), Detail: sv.violation})
 		}
 		if !modelOff {
-			items = append(items, item{line: line, goR: strings.Join(outs, "|"), kind: kind})
+			alt := ""
+			for _, a := range alts {
+				if a != "" {
+					alt = strings.Join(alts, "|")
+					break
+				}
+			}
+			items = append(items, item{line: line, goR: strings.Join(outs, "|"), kind: kind, alt: alt})
 			if len(items) >= 200000 {
 				flush()
 			}
@@ -1277,7 +1370,7 @@ func main() {
 		b, err := os.ReadFile(path)
 		if err != nil {
 			fmt.Fprintln(os.Stderr, err)
-			os.Exit(2)
+			exit(2)
 		}
 		for _, l := range strings.Split(string(b), "\n") {
 			if strings.TrimSpace(l) == "" {
@@ -1302,14 +1395,14 @@ func main() {
 		}
 		n := 150000 * *scale
 		if *tier == "thorough" {
-			n = 5000000 * *scale
+			n = 2000000 * *scale
 		}
 		// hand-picked seeds first
 		for _, l := range corpus {
 			ops, err := u.parseLine(l)
 			if err != nil {
 				fmt.Fprintln(os.Stderr, "corpus:", err, l)
-				os.Exit(2)
+				exit(2)
 			}
 			eval("corpus", ops)
 		}
@@ -1321,7 +1414,9 @@ func main() {
 			}
 		}
 		g.matcherProbes(&items)
-		if *tier == "thorough" {
+		if *tier != "thorough" {
+			g.exhaustive(eval, 2, "compared with the reference set and with the model")
+		} else {
 			g.exhaustive(eval, 3, "compared with the reference set and with the model")
 			flush()
 			modelOff = true
@@ -1336,11 +1431,11 @@ func main() {
 		}
 		if err := rep.Write(*out); err != nil {
 			fmt.Fprintln(os.Stderr, err)
-			os.Exit(2)
+			exit(2)
 		}
 		fmt.Printf("c19 (oracle only): %d evaluations, %d failures\n", rep.Evaluations, rep.Failures())
 		if rep.Failures() > 0 {
-			os.Exit(1)
+			exit(1)
 		}
 		return
 	}
@@ -1350,11 +1445,11 @@ func main() {
 	}
 	if err := rep.Write(*out); err != nil {
 		fmt.Fprintln(os.Stderr, err)
-		os.Exit(2)
+		exit(2)
 	}
 	fmt.Printf("c19: %d evaluations, %d compared with the model, %d failures, %d known\n", rep.Evaluations, rep.Compared, rep.Failures(), len(rep.Cases)-rep.Failures())
 	if rep.Failures() > 0 {
-		os.Exit(1)
+		exit(1)
 	}
 }
 
